@@ -14,8 +14,8 @@ set_option maxHeartbeats 4000000 in
 theorem reader_new_missing (lim : Option Nat) (fd : Nat) :
     (run (hctx (streamOf (openAnswers lim fd .missing))) "ShmReader::new" .unit [cstrValue]).noLog
       = .ok (openValue (readerOpenLim lim .missing)) .unit [] := by
-  simp [rs_eval, rs_code, streamOf, openAnswers, cstrValue, readerOpenLim, openValue, shmErrValue, syscallErr,
-    Origin.text, ENOENT]
+  simp (config := { maxSteps := 4000000 }) [rs_eval, rs_code, streamOf, openAnswers, cstrValue, readerOpenLim, openValue,
+    shmErrValue, syscallErr, Origin.text, ENOENT]
 
 set_option maxRecDepth 8000 in
 set_option maxHeartbeats 4000000 in
